@@ -117,6 +117,7 @@ type exec struct {
 	preempt int // remaining preemptions (interleaving mode)
 	mstates map[*value]*mstate
 	fresh   int
+	uidBytes map[*Term][]*Term
 
 	globals map[*ssa.Global]*value
 	inited  map[*ssa.Package]bool
